@@ -1,5 +1,7 @@
 import Liquid.Scan
 import Liquid.Value
+import Liquid.Parse
+import Liquid.TrimWriter
 /-!
 # Line-protocol driver (DESIGN §5.1): one case per line in, one canonical result line out.
 -/
@@ -14,6 +16,9 @@ def runCase (line : String) : String :=
   match line.splitOn " " with
   | ["scan", d, ln, src] =>
     showTokens (scan (parseDelims d) (hexDecode src) ln.toNat!)
+  | ["tw", ops] =>
+    let os := if ops == "-" then [] else (ops.splitOn ",").filterMap WOp.parse
+    showCalls (writeCalls os)
   | ["val", v] =>
     match GoVal.parse v with
     | some x => x.enc
